@@ -3,32 +3,42 @@ SPEC = dict(
     prop="C10",
     proof_module="SimbodyProofs.C10",
     sources=["SimbodyModel/Proto.lean", "SimbodyModel/C10.lean", "SimbodyProofs/C10_lemmas.lean",
-             "SimbodyProofs/C10.lean", "Drivers/C10.lean"],
-    n=dict(quick=300, thorough=20000),
+             "SimbodyProofs/C10_compose.lean", "SimbodyProofs/C10_aba.lean", "SimbodyProofs/C10.lean", "Drivers/C10.lean"],
+    n=dict(quick=300, thorough=12000),
     rtol=1e-9, atol=1e-12,
-    rule="case k (all choices from streams seeded by (VERIF_SEED,k)): system A = random tree of 1-6 bodies from 13 mobilizer "
-         "types (random frames, Euler/quaternion), gravity + mobility dampers + a Force::Custom applying a supplied "
-         "mobility-force vector, 0-2 random constraints, a random subset of mobilizers carrying Motion::Steady / "
-         "Motion::Sinusoid(Position|Velocity|Acceleration) / a polynomial Motion::Custom (Prescribed, Zero, Discrete) / "
-         "disabled-by-default / lockByDefault, then lock(level), lockAt(values, level) with a contiguous Vector, a strided "
-         "Vector view or the scalar signature, unlock, Motion::disable/enable, Steady::setOneRate on the State; system B = "
-         "same streams without any Motion or lock.  Records per case: chk (the property's predicates on the implementation: "
-         "exact q/u/udot after System::prescribe + realize(Acceleration), others untouched, calcMotionErrors == 0, "
-         "-tau applied to the un-prescribed system reproduces udot, disabled/unlocked == never prescribed), presc "
-         "(instance partition, pools, scatter vs C10.partition/prescribe), elim (dense block elimination on calcM / "
-         "calcResidualForce vs getUDot, getMotionMultipliers, findMotionForces, calcMotionPower), sin, steady (Motion "
-         "formulas), lockseq (lock/lockAt/unlock/setQ/setU bookkeeping sequences); distinct = distinct input records",
-    partial="the O(n) recursion with prescribed nodes (calcUDotPass1Inward/Pass2Outward) is tied to the proved dense block "
-            "elimination by correspondence only (elim records, max rel diff 2e-11 over 117k records) - DESIGN's aba_prescribed is not proved; "
-            "gaussSolve_correct / elim_sound assume no vanishing pivot (SPD => positive pivots is not proved); Motion::Custom "
-            "is relative to the user callbacks; N^-1 / NDot of position-level Motions on mobilizers with qdot != u enter "
-            "through the public multiplyByNInv/multiplyByNDot; the constraint multiplier solve is C08's (systems with a rank "
-            "deficient constraint Jacobian or constraints conflicting with the prescription are excluded from the "
-            "force-equivalence records and counted in the path distribution)",
+    rule="case k (all choices from streams seeded by (VERIF_SEED,k)): system A = random tree of 1-13 bodies (one case in ten has 8-13) from the ceq v6 "
+         "palette (18 mobilizer types, reversed with p=1/4, random frames, Euler/quaternion; in 1/3 of the cases a guaranteed "
+         "RBNodeLoneParticle body), gravity + mobility dampers + a Force::Custom applying a supplied mobility-force vector, "
+         "0-2 random constraints, a random subset of mobilizers carrying Motion::Steady / Motion::Sinusoid(Position|Velocity|"
+         "Acceleration) / a Motion::Custom (polynomial, or unit-quaternion spin for position level on quaternion mobilizers; "
+         "Prescribed, Zero, Discrete, Fast) / disabled-by-default / lockByDefault, then lock(level), lockAt(values, level) with "
+         "a contiguous Vector, a strided Vector view or the scalar signature, unlock, Motion::disable/enable, "
+         "Steady::setOneRate on the State; system B = same streams without any Motion or lock.  Records per case: chk (the "
+         "property's predicates on the implementation, at time t and again after advancing time), presc (instance partition, "
+         "callback->pool choice incl. u = N^-1 qdot, scatter vs C10.partition/prescribe/knownUDot), aba (TreeDyn's two passes "
+         "with prescribed nodes on exported tree data vs getUDot and getMotionMultipliers), elim (dense block elimination on "
+         "calcM / calcResidualForce vs getUDot, getMotionMultipliers, findMotionForces, calcMotionPower), sin, steady (Motion "
+         "formulas), lockseq (lock/lockAt/unlock/setQ/setU sequences); distinct = distinct input records",
+    partial="per clause (i) proved about the executed model / (ii) predicate- or correspondence-only / (iii) not covered: "
+            "[prescribed q,u,udot exact] (i) prescribe_honours_lock/_lockAt_*/_motion/_zero_motion on the executed partition/prescribe/"
+            "knownUDot, Sinusoid derivative chain motion_derivs; (ii) Motion::Custom relative to its callbacks; N^-1 and NDot "
+            "are exported data (iii). [others solved with the prescribed ones as given inputs; reported forces reproduce the "
+            "accelerations] (i) aba_prescribed / tau_as_applied_force are proved for the abstract (Matrix) twin of "
+            "calcUDotPass1Inward/Pass2Outward with prescribed nodes on arbitrary rose trees; the refinement between that twin and "
+            "the executed TreeDyn.fwdIn/fwdOut is NOT proved - tie is (ii): aba records (udot AND tau, max rel diff 9e-12), elim "
+            "records, predicates multipliers.*.eom_residual / as_applied_force; block_* and elim_solves_block_system are block "
+            "algebra about the dense reference only (pivots != 0 assumed, SPD => pivots > 0 not proved). [unlock/disable "
+            "restores free behaviour] (i) flags + partition_all_free + elim_all_free; same udot (ii) unlock.*.restores_free. "
+            "[with constraints] (ii) only; as_applied_force/restores_free need sigma_min(G) >= 1e-6, |lambda| <= 1e6, "
+            "|udotErr| <= 1e-8 (else tagged and skipped), eom_residual runs whenever |lambda| <= 1e6. (iii) not generated: "
+            "acceleration-level Discrete/Fast (no udot source in the code / documented as not allowed), > 13 bodies, "
+            "MobilizedBody::Custom, Line mobilizers with quaternions or position-level Motions, position-level Motions on "
+            "BendStretch/SphericalCoords, time integration (two instants only)",
     assumptions=["derivative = eps-part over the dual numbers; the trig pair (cos, sin) of the code's angle expression w*t+p "
                  "is lifted by cdot = -s*thetadot, sdot = c*thetadot (DESIGN §3 item 6); libm sin/cos enter as the pair",
-                 "slot ranges of different mobilizers do not overlap (Alloc): hypothesis of partition_distinct, checked on "
-                 "every presc record through getFirstQIndex/getFirstUIndex",
+                 "WellFormed: slot ranges of different mobilizers do not overlap and lie inside q/u; one lock value / callback "
+                 "value per slot (checked on every presc record through getFirstQIndex/getFirstUIndex/getNumQ/getNumU)",
+                 "WFp / WF of the tree theorems: symmetric spatial inertias, DI inverts H'PH at every free joint",
                  "tau convention as coded and documented: M udot + tau + ~G lambda + f_inertial = f_applied (tau on the LHS); "
                  "the force to apply in the un-prescribed system is -tau"],
 )
